@@ -12,8 +12,8 @@ import c04
 ID = "C01"
 REQUIRES = ["Agree", "C01Spec"]
 THEOREM_REQUIRES = ["C01"]
-THEOREMS = ["C01_holds_partial"]
-PROOF_FILES = ["Proofs/C01Proof.v", "Properties/C01.v"]
+THEOREMS = ["C01_holds_partial", "C01_holds_structure"]
+PROOF_FILES = ["Proofs/C01Proof.v", "Proofs/C06Named.v", "Proofs/C07Comp.v", "Proofs/C01More.v", "Properties/C01.v"]
 RULE = ("every accepted module is compiled for real: `cargo check` of a scratch crate holding all generated modules "
         "against wgpu 24.0.5 + bytemuck + encase + glam + serde (+ a local nalgebra stub); families: kitchen-sink "
         "(constants, overrides, entry points of all stages, vertex inputs, fragment outputs), struct programs x derive "
